@@ -496,8 +496,15 @@ def gen_row(tier):
             for t in opts[i]:
                 for u in opts[j]:
                     yield {"g": "row", "f": fj, "trig": {str(i): t, str(j): u}}
-    for v in ("choice-nolabel-0", "choice-nolabel-1", "choice-nolabel-both", "choice-header-space", "dupid", "dupid-one"):
+    for v in ("choice-nolabel-0", "choice-nolabel-1", "choice-nolabel-both", "choice-header-space", "dupid", "dupid-one",
+              "dupid-idstring-blank", "dupid-formid-blank", "dupid-swapped"):
         yield {"g": "misc", "v": v}
+    # unlabeled choices in lists with repeated choice names (allowed by the setting): every unlabeled row is named
+    import itertools as _it
+
+    for names in _it.product("xy", repeat=3):
+        for mask in range(1, 8):
+            yield {"g": "misc", "v": "dupnames", "names": list(names), "mask": mask}
 
 
 def check_row(case):
@@ -541,6 +548,24 @@ def check_misc(case):
         exp[("dupid",)] += 1
     elif v == "dupid-one":
         wb["settings"] = [{"form_id": "a"}]
+    elif v in ("dupid-idstring-blank", "dupid-formid-blank", "dupid-swapped"):
+        # both headers exist; the readers drop empty cells from the row
+        wb["settings"] = [{"form_id": "a"}] if v != "dupid-formid-blank" else [{"id_string": "a"}]
+        hdr = ["id_string", "form_id"] if v == "dupid-swapped" else ["form_id", "id_string"]
+        wb["settings_header"] = [{h: None for h in hdr}]
+        exp[("dupid",)] += 1
+    elif v == "dupnames":
+        wb["choices"] = []
+        for i, nm in enumerate(case["names"]):
+            r = {"list_name": "c", "name": nm}
+            if not case["mask"] >> i & 1:
+                r["label"] = f"L{i}"
+            else:
+                exp[("choice-nolabel", i + 2)] += 1
+            wb["choices"].append(r)
+        if all(case["mask"] >> i & 1 for i in range(3)):
+            wb["choices"][0]["z"] = "1"
+        wb["settings"] = [{"allow_choice_duplicates": "yes"}]
     out = run_convert(wb)
     if out.kind != "ok":
         sig = f"internal-exception:{out.exc}:{out.where}" if out.kind == "crash" else f"rejected:misc:{v}"
